@@ -6,6 +6,9 @@
 //	metrics jwin <from> <to> <start:end:ip.ip...;...>   hand-built journal (real sketches, chosen timestamps)
 //	metrics jwrite <k> <a<tick>.<ip>,f<tick>,...>        real ClusterWriter driven in real time on a tick grid
 //	metrics jkey <k1>.<k2> <ip.ip...>                    what a chunk stores: the sketch of HMAC-SHA3-256(key, address), nothing else
+//	metrics jwf <k> <plan> <a<tick>.<ip>,f<tick>,...>    jwrite against a sink whose i-th Write call behaves as plan[i]:
+//	                                                     o ok, s ok but Sync fails, n error with nothing written, t error after half
+//	                                                     the line, l error after all but the newline, w whole line written and error
 package main
 
 import (
@@ -13,8 +16,9 @@ import (
 	"crypto/hmac"
 	"encoding/binary"
 	"encoding/json"
-	"hash"
+	"errors"
 	"fmt"
+	"hash"
 	"strconv"
 	"strings"
 	"time"
@@ -79,6 +83,164 @@ func jwin(args []string) string {
 		return "!count " + err.Error()
 	}
 	return fmt.Sprintf("sum=%d chunks=%d", res.Sum, res.ChunkIncluded)
+}
+
+// failSink is a WriteSyncer over a buffer whose successive Write calls behave as the plan says.
+type failSink struct {
+	buf      bytes.Buffer
+	plan     string
+	n        int
+	syncFail bool
+}
+
+var errSink = errors.New("verif: sink failure")
+
+func (s *failSink) Write(p []byte) (int, error) {
+	mode := byte('o')
+	if s.n < len(s.plan) {
+		mode = s.plan[s.n]
+	}
+	s.n++
+	switch mode {
+	case 'n':
+		return 0, errSink
+	case 't':
+		k := len(p) / 2
+		s.buf.Write(p[:k])
+		return k, errSink
+	case 'l':
+		s.buf.Write(p[:len(p)-1])
+		return len(p) - 1, errSink
+	case 'w':
+		s.buf.Write(p)
+		return len(p), errSink
+	}
+	s.syncFail = mode == 's'
+	return s.buf.Write(p)
+}
+
+func (s *failSink) Sync() error {
+	if s.syncFail {
+		s.syncFail = false
+		return errSink
+	}
+	return nil
+}
+
+// fileLines: the journal as the reader's line scanner sees it (an unterminated rest is a last line)
+func fileLines(text string) []string {
+	parts := strings.Split(text, "\n")
+	if len(parts) > 0 && parts[len(parts)-1] == "" {
+		parts = parts[:len(parts)-1]
+	}
+	return parts
+}
+
+// one attempt of jwf on a grid of the given tick; ok=false when an operation left its time slot
+func jwfOnce(k int64, plan string, ops []wop, tick time.Duration) (string, bool) {
+	out := &failSink{plan: plan}
+	sink := ipsetsink.NewIPSetSink("verif-key")
+	t0 := time.Now()
+	w := sinkcluster.NewClusterWriter(out, time.Duration(k)*tick+tick/2, sink)
+	if time.Since(t0) >= tick/4 {
+		return "", false
+	}
+	var last int64
+	for _, o := range ops {
+		at := t0.Add(time.Duration(o.tick) * tick)
+		if !time.Now().Before(at) {
+			return "", false
+		}
+		spinUntil(at)
+		if o.ip == "" {
+			w.WriteIPSetToDisk()
+		} else {
+			w.AddIPToSet(o.ip)
+		}
+		if time.Now().Sub(at) >= tick/4 {
+			return "", false
+		}
+		last = o.tick
+	}
+	text := out.buf.String()
+	var lines []string
+	for _, line := range fileLines(text) {
+		var e sinkcluster.SinkEntry
+		if err := json.Unmarshal([]byte(line), &e); err != nil {
+			lines = append(lines, "x")
+			continue
+		}
+		r, err := sinkcluster.NewClusterCounter(e.RecordingStart, e.RecordingEnd).Count(bytes.NewBufferString(line + "\n"))
+		if err != nil {
+			lines = append(lines, "x")
+			continue
+		}
+		lines = append(lines, fmt.Sprintf("%d:%d:%d", int64(e.RecordingStart.Sub(t0)/tick), int64(e.RecordingEnd.Sub(t0)/tick), r.Sum))
+	}
+	ls := "-"
+	if len(lines) > 0 {
+		ls = strings.Join(lines, ";")
+	}
+	all, err := sinkcluster.NewClusterCounter(t0.Add(-tick), t0.Add(time.Duration(last+1)*tick)).Count(strings.NewReader(text))
+	if err != nil {
+		return fmt.Sprintf("lines=%s all=err", ls), true
+	}
+	return fmt.Sprintf("lines=%s all=%d", ls, all.Sum), true
+}
+
+func parseWops(list string) ([]wop, bool) {
+	var ops []wop
+	for _, t := range wire.List(list) {
+		if len(t) < 2 {
+			return nil, false
+		}
+		if t[0] == 'f' {
+			n, err := strconv.ParseInt(t[1:], 10, 64)
+			if err != nil {
+				return nil, false
+			}
+			ops = append(ops, wop{tick: n})
+		} else if t[0] == 'a' {
+			p := strings.Split(t[1:], ".")
+			if len(p) != 2 {
+				return nil, false
+			}
+			n, err := strconv.ParseInt(p[0], 10, 64)
+			if err != nil {
+				return nil, false
+			}
+			ops = append(ops, wop{tick: n, ip: ipString(p[1])})
+		} else {
+			return nil, false
+		}
+	}
+	return ops, true
+}
+
+func jwf(args []string) string {
+	k, err := strconv.ParseInt(args[0], 10, 64)
+	if err != nil {
+		return "!badcase"
+	}
+	plan := args[1]
+	if plan == "-" {
+		plan = ""
+	}
+	if strings.Trim(plan, "osntlw") != "" {
+		return "!badcase"
+	}
+	ops, ok := parseWops(args[2])
+	if !ok {
+		return "!badcase"
+	}
+	tick := 400 * time.Microsecond
+	for try := 0; try < 12; try++ {
+		if r, ok := jwfOnce(k, plan, ops, tick); ok {
+			return r
+		}
+		tick *= 2
+	}
+	return "!timing"
 }
 
 type wop struct {
@@ -284,6 +446,9 @@ func main() {
 		}
 		if len(a) == 3 && a[0] == "jwrite" {
 			return jwrite(a[1:])
+		}
+		if len(a) == 4 && a[0] == "jwf" {
+			return jwf(a[1:])
 		}
 		return "!badcase"
 	})
